@@ -5,9 +5,9 @@
 #include <pybind11/pybind11.h>
 #include <pybind11/stl.h>
 
-#include "awkward/datetime_util.h"
 #include "awkward/type/Type.h"
 #include "awkward/python/content.h"
+#include "awkward/datetime_util.h"
 
 #include "awkward/python/forms.h"
 
